@@ -572,10 +572,66 @@ pub fn run_c06(run: &mut Run) -> anyhow::Result<()> {
     for i in 0..(if run.quick() { 2 } else { 10 }) {
         typed_hostile(run, i)?;
     }
+    trailing_bytes_window(run, if run.quick() { 3 } else { 30 })?;
     Ok(())
 }
 
 // ------------------------------------------------------------------ C02
+
+/// C06 under an unusual but legal configuration: the victim limits the per-STREAM receive window only.  A
+/// hostile peer sends a complete request to a slow handler followed by trailing bytes nobody will read,
+/// filling that stream's window; well-formed requests on its other streams (and other peers) must still
+/// be served at once.
+fn trailing_bytes_window(run: &mut Run, cases: u64) -> anyhow::Result<()> {
+    for case in 0..cases {
+        let seed = run.seed ^ 0x06_77 ^ (case << 16);
+        let window: u64 = [16_384, 40_000, 100_000][(case % 3) as usize];
+        mark_file(&format!("scenario trailing_bytes_window case {case} window {window} seed {} (re-run with ./check C06 --seed <seed>)", run.seed));
+        let rt = paused_rt();
+        let res: anyhow::Result<(String, bool, bool)> = rt.block_on(async move {
+            let fabric = Fabric::new(seed);
+            let mut cfg: Config = config_idle(120_000);
+            let mut q = anemo::QuicConfig::default();
+            q.max_idle_timeout_ms = Some(120_000);
+            q.stream_receive_window = Some(window);
+            cfg.quic = Some(q);
+            let s = start_node(&fabric, seed, 1, cfg)?;
+            let h = start_node(&fabric, seed, 2, config_idle(120_000))?;
+            let hp = h.net.connect(s.addr).await?;
+            let raw = raw_node(&fabric, 3, key_of(seed, 3), "verif");
+            let conn = raw_connect(&raw, s.addr).await?;
+            // stream 1: a complete request for a slow handler, then as many trailing bytes as the stream takes
+            let (mut s1, r1) = conn.open_bi().await?;
+            s1.write_all(&request_bytes("slow", 4_000, b"first", None)).await?;
+            let junk = vec![0x5au8; 2 * window as usize];
+            let _ = tokio::time::timeout(Duration::from_millis(800), s1.write_all(&junk)).await;
+            // stream 2: a well-formed request on the same connection
+            let bytes = request_bytes("second", 0, b"own", None);
+            let ops = vec![ScriptOp::Write(bytes), ScriptOp::Fin, ScriptOp::Wait(300), ScriptOp::Read];
+            let own = tokio::time::timeout(Duration::from_secs(3), run_script(&conn, &ops)).await;
+            let own_s = match own {
+                Ok(Ok(x)) => x,
+                Ok(Err(e)) => format!("error:{e}"),
+                Err(_) => "no-answer-within-3s".into(),
+            };
+            let hr = tokio::time::timeout(Duration::from_secs(3), h.net.rpc(hp, Request::new(Bytes::from_static(b"honest")).with_header("x-id", "h"))).await;
+            let honest_ok = matches!(&hr, Ok(Ok(r)) if r.status() == StatusCode::Success);
+            let listed = s.net.peers().contains(&raw.id.peer_id);
+            std::mem::forget(s1);
+            std::mem::forget(r1);
+            Ok((own_s, honest_ok, listed))
+        });
+        drop(rt);
+        let (own, honest_ok, listed) = res?;
+        run.eval(&format!("trailing-bytes-window {case}"), true);
+        run.count("trailing-bytes-window", if own.starts_with("ok ") { "served" } else { "stalled" });
+        if !own.starts_with("ok ") || !honest_ok || !listed {
+            run.oracle_fail(json!({"kind": "unread trailing bytes on one stream stall well-formed requests on the peer's other streams (victim limits the per-stream receive window only)",
+                "second_stream": own, "other_peer_served": honest_ok, "connection_still_listed": listed, "stream_receive_window": window, "seed": run.seed, "case": case}));
+        }
+    }
+    Ok(())
+}
 
 pub fn run_c02(run: &mut Run) -> anyhow::Result<()> {
     install_panic_counter();
